@@ -14,6 +14,8 @@
 -/
 import IbicusModel.Lemmas.C04Windowed
 import IbicusModel.Lemmas.GenDebiasers
+import IbicusModel.Props.C05
+import IbicusModel.Model.FromVariable
 
 namespace Props.C04
 open Model.Stats Model.Family Model.Debiasers Model.Isimip Model.Skeleton
@@ -245,7 +247,8 @@ example : sdmAbsGuard Model.Family.ratSigmoid [1, 2, 6] [2, 4, 9] [5, 7, 40] := 
 theorem cdft_affine {a : Rat} (ha : 0 < a) (b : Rat) (d : DeltaShift) (hd : d ≠ .multiplicative) (em : EcdfMethod)
     (im : IecdfMethod) {obs H F : List Rat} (ho : obs ≠ []) (hh : H ≠ []) (hf : F ≠ []) :
     cdftMapping d em im (affine a b obs) (affine a b H) (affine a b F) = affine a b (cdftMapping d em im obs H F) :=
-  cdftMappingG_affine (eqAffineLaws ha b em im) d hd ho hh hf
+  cdftMappingG_affine (eqAffineLaws ha b em im) d hd ho hh hf (cdftShifted_fst_ne_nil d obs hh F)
+    (cdftShifted_ne_nil d obs H hf)
 
 /-- the same for an empty future window (the result is empty) -/
 theorem cdft_affine_any {a : Rat} (ha : 0 < a) (b : Rat) (d : DeltaShift) (hd : d ≠ .multiplicative) (em : EcdfMethod)
@@ -551,5 +554,152 @@ example : applyLocationRW lsWin 3 1 days days days (affine (9 / 5) 32 [1, 2, 6, 
 example : (applyLocationRW (qdmWin Model.Family.ratSigmoid .step (1 / 16) (some (3, 1, [2001, 2001, 2002, 2002, 2003, 2003]))) 3 3
     [2, 2, 2, 2, 2, 2] [2, 2, 2, 2, 2, 2] [2, 2, 2, 2, 2, 2] [1, 2, 6, 3, 5, 4] [2, 4, 9, 1, 7, 3] [5, 7, 40, 2, 8, 9]).toOption.map
       (fun l => l.all (·.isSome)) = some true := by decide +kernel
+
+/-! ## multiplicative LinearScaling / DeltaChange, whole series (pure rescaling) -/
+
+theorem ls_mult_windowed_scale {a : Rat} (ha : a ≠ 0) (L S : Int) (dO dH dF : List Int) (obs hist fut : List Rat) :
+    applyLocationRW lsMultWin L S dO dH dF (affine a 0 obs) (affine a 0 hist) (affine a 0 fut)
+      = (applyLocationRW lsMultWin L S dO dH dF obs hist fut).map (affineBuf a 0) := by
+  apply windowed_affine_RW
+  · intro o h x
+    exact decide_eq_decide.mpr (lsGuard_mult_scale ha o h)
+  · intro o h x hg
+    exact ls_mult_scale_equivariant ha x (of_decide_eq_true hg)
+
+theorem dc_mult_windowed_scale {a : Rat} (ha : a ≠ 0) (L S : Int) (dO dH dF : List Int) (obs hist fut : List Rat) :
+    applyLocationDC dcMultWin L S dO dH dF (affine a 0 obs) (affine a 0 hist) (affine a 0 fut)
+      = (applyLocationDC dcMultWin L S dO dH dF obs hist fut).map (affineBuf a 0) := by
+  apply windowed_affine_DC
+  · intro o h x
+    exact decide_eq_decide.mpr (dcGuard_mult_scale ha h x)
+  · intro o h x hg
+    exact dc_mult_scale_equivariant ha o (of_decide_eq_true hg)
+
+example : applyLocationRW lsMultWin 3 1 days days days (affine 1000 0 [1, 2, 6, 3, 5, 4]) (affine 1000 0 [2, 4, 9, 1, 7, 3])
+      (affine 1000 0 [5, 7, 40, 2, 8, 9])
+    = (applyLocationRW lsMultWin 3 1 days days days [1, 2, 6, 3, 5, 4] [2, 4, 9, 1, 7, 3] [5, 7, 40, 2, 8, 9]).map
+        (affineBuf 1000 0) := ls_mult_windowed_scale (by norm_num) _ _ _ _ _ _ _ _
+
+/-! ## `ecdf_method = "kernel_density"` (histogram cdf; the bins are an oracle with the law `BinsAffine`) -/
+
+/-- **CDFt with the histogram ecdf** and any inverse-ecdf method, under the oracle law "the bin edges of
+    `np.histogram(x, bins="auto")` carry the unit, the counts do not change" (`BinsAffine`, on non-constant samples).
+    Guards: samples non-empty, `cm_hist` and `cm_future` not constant. -/
+theorem cdft_affine_hist {a : Rat} (ha : 0 < a) (b : Rat) (d : DeltaShift) (hd : d ≠ .multiplicative)
+    (bins : List Rat → List Rat × List Nat) (hb : BinsAffine a b bins) (im : IecdfMethod) {obs H F : List Rat}
+    (ho : obs ≠ []) (hH : minQ H < maxQ H) (hF : minQ F < maxQ F) :
+    cdftMappingG (Lemmas.C02.histE bins) (iecdf1 im) d (affine a b obs) (affine a b H) (affine a b F)
+      = affine a b (cdftMappingG (Lemmas.C02.histE bins) (iecdf1 im) d obs H F) := by
+  have hne : ∀ x : List Rat, minQ x < maxQ x → x ≠ [] := by
+    intro x hx h0; rw [h0] at hx; simp [minQ, maxQ] at hx
+  obtain ⟨h1, h2⟩ := cdftShifted_nonconst d hd obs hH hF
+  exact cdftMappingG_affine (eqAffineLaws_hist ha b bins hb im) d hd ho (hne _ hH) (hne _ hF) h1 h2
+
+/-- **QDM absolute with the histogram ecdf** -/
+theorem qdm_abs_affine_hist {Fam : LocScaleFam} (L : LocScaleLaws Fam) {a : Rat} (ha : 0 < a) (b : Rat)
+    (bins : List Rat → List Rat × List Nat) (hb : BinsAffine a b bins) (t : Rat) {obs H F : List Rat}
+    (ho : obs ≠ []) (hh : H ≠ []) (hF : minQ F < maxQ F) :
+    qdmStepsG Fam.toFamily .absolute (Lemmas.C02.histE bins) t none (affine a b F) (Fam.fit (affine a b obs)) (Fam.fit (affine a b H))
+      = affine a b (qdmStepsG Fam.toFamily .absolute (Lemmas.C02.histE bins) t none F (Fam.fit obs) (Fam.fit H)) := by
+  rw [fit_affine' L ha b ho, fit_affine' L ha b hh]
+  exact qdmStepsG_affine a b _ t F _ _ (fun y => histE_affine ha b bins hb hF y)
+
+/-- the oracle law is satisfiable: one bin over the range of the sample -/
+def rangeBin (x : List Rat) : List Rat × List Nat := ([minQ x, maxQ x], [x.length])
+
+theorem rangeBin_affine {a : Rat} (ha : 0 < a) (b : Rat) : BinsAffine a b rangeBin where
+  laws := fun x hx => ⟨rfl, by simp [rangeBin, hx], by
+    have : x ≠ [] := by intro h0; rw [h0] at hx; simp [minQ, maxQ] at hx
+    simpa [rangeBin] using List.length_pos_iff.mpr this⟩
+  aff := fun x hx => by
+    have hne : x ≠ [] := by intro h0; rw [h0] at hx; simp [minQ, maxQ] at hx
+    unfold rangeBin
+    rw [minQ_map_affine ha b hne, maxQ_map_affine ha b hne, affine_length]
+    rfl
+
+example : cdftMappingG (Lemmas.C02.histE rangeBin) (iecdf1 .linear) .additive (affine (9 / 5) 32 [1, 2, 6]) (affine (9 / 5) 32 [2, 4, 9])
+      (affine (9 / 5) 32 [5, 7, 40])
+    = affine (9 / 5) 32 (cdftMappingG (Lemmas.C02.histE rangeBin) (iecdf1 .linear) .additive [1, 2, 6] [2, 4, 9] [5, 7, 40]) :=
+  cdft_affine_hist (by norm_num) _ _ (by decide) _ (rangeBin_affine (by norm_num) _) _ (by simp) (by decide +kernel) (by decide +kernel)
+
+/-! ## grids: `Debiaser.apply` maps `apply_location` over the cells (`Model/Grid.lean`, C05) -/
+
+open Model.Grid in
+/-- **the unit change passes through `apply`** (serial or any complete parallel schedule, failsafe on or off): if the
+    per-location function is equivariant, then at every cell whose location returns a series of the right length the
+    column of the output of the transformed run is the transformed column of the original run. -/
+theorem apply_grid_affine {ε} (loc : LocFn Rat ε) (a b : Rat)
+    (hloc : ∀ o h x, loc (affine a b o) (affine a b h) (affine a b x) = (loc o h x).map (affine a b))
+    (fs : Bool) (obs hist fut : Arr3 Rat) (nx ny : Nat) (m : Mode) (hm : ModeOk m nx ny) (out out' : Arr3 (Elem Rat))
+    (h : debiaserApply loc fs obs hist fut nx ny m = .ok out)
+    (h' : debiaserApply loc fs (affine3 a b obs) (affine3 a b hist) (affine3 a b fut) nx ny m = .ok out')
+    (i j : Nat) (hi : i < nx) (hj : j < ny) (v : List Rat) (hv : cellFn loc obs hist fut (i, j) = .ok v)
+    (hl : v.length = fut.length) :
+    slice out i j = v.map (fun x => some (.val x)) ∧
+    slice out' i j = (affine a b v).map (fun x => some (.val x)) := by
+  constructor
+  · exact Props.C05.apply_cellwise _ fs _ nx ny m hm out h i j hi hj v hv hl
+  · have hv' : cellFn loc (affine3 a b obs) (affine3 a b hist) (affine3 a b fut) (i, j) = .ok (affine a b v) := by
+      unfold cellFn at hv ⊢
+      simp only [slice_affine3]
+      rw [hloc, hv]
+      rfl
+    unfold debiaserApply at h'
+    exact Props.C05.apply_cellwise _ fs _ nx ny m hm out' h' i j hi hj (affine a b v) hv'
+      (by rw [affine_length, affine3_length]; exact hl)
+
+/-- the per-location function of a running-window debiaser with a guarded window function is equivariant
+    (the hypothesis `hloc` of `apply_grid_affine`) -/
+theorem locRW_affine (G : List Rat → List Rat → List Rat → Bool) (f : List Rat → List Rat → List Rat → List Rat)
+    (a b : Rat)
+    (hG : ∀ o h x, G (affine a b o) (affine a b h) (affine a b x) = G o h x)
+    (hf : ∀ o h x, G o h x = true → f (affine a b o) (affine a b h) (affine a b x) = affine a b (f o h x))
+    (L S : Int) (dO dH dF : List Int) (o h x : List Rat) :
+    locRW (guardedWin G f) L S dO dH dF (affine a b o) (affine a b h) (affine a b x)
+      = (locRW (guardedWin G f) L S dO dH dF o h x).map (affine a b) := by
+  unfold locRW
+  rw [windowed_affine_RW G f a b hG hf]
+  exact collapse_map _ _
+
+example : ∀ o h x, locRW lsWin 31 1 [1, 2, 3] [1, 2, 3] [1, 2, 3] (affine (9 / 5) 32 o) (affine (9 / 5) 32 h) (affine (9 / 5) 32 x)
+    = (locRW lsWin 31 1 [1, 2, 3] [1, 2, 3] [1, 2, 3] o h x).map (affine (9 / 5) 32) := by
+  intro o h x
+  apply locRW_affine
+  · intro o h x; apply decide_eq_decide.mpr; simp [lsGuard, affine_ne_nil_iff]
+  · intro o h x hg
+    obtain ⟨ho, hh, _⟩ := of_decide_eq_true hg
+    exact ls_add_affine _ _ x ho hh
+
+/-! ## construction sequences: `from_variable` reads its tables, it does not write them (`Model/FromVariable.lean`) -/
+
+open Model.FromVariable in
+/-- **the debiaser a call of `from_variable` builds does not depend on what was constructed before it in the process**:
+    the shared table of general settings is the same after any sequence of calls … -/
+theorem from_variable_state_const (table : String → Option Settings) (general : Settings) (before : List Call) :
+    before.foldl (fun g c => (fromVariableStep table g c).1) general = general := by
+  induction before generalizing general with
+  | nil => rfl
+  | cons c t ih => simp only [List.foldl_cons, fromVariableStep]; exact ih general
+
+open Model.FromVariable in
+/-- … so its constructor arguments are those of the same call made first in a fresh process.  (In particular an ISIMIP
+    debiaser for an unbounded variable keeps `scale_by_annual_cycle_of_upper_bounds = False` — the hypothesis `hsc` of
+    `isimip_windowed_affine_RW` — after debiasers for `rsds` were built.) -/
+theorem from_variable_history_free (table : String → Option Settings) (general : Settings) (before : List Call) (c : Call) :
+    session (fromVariableStep table) general before c = session (fromVariableStep table) general [] c := by
+  unfold session
+  rw [from_variable_state_const]
+  rfl
+
+open Model.FromVariable in
+/-- the statement has content: an implementation that merges the variable settings *into* the shared general settings
+    (`general.update(variable_settings)`) hands `tas` the multiplicative step 1 / 8 of `rsds` — complete evaluation -/
+theorem aliasing_counter_model_leaks :
+    let table : String → Option Settings := fun v =>
+      if v = "rsds" then some [("scale_by_annual_cycle_of_upper_bounds", "True")] else if v = "tas" then some [("detrending", "True")] else none
+    let general : Settings := [("scale_by_annual_cycle_of_upper_bounds", "False"), ("detrending", "False")]
+    (session (aliasingStep table) general [{ var := "rsds" }] { var := "tas" }).bind (get · "scale_by_annual_cycle_of_upper_bounds") = some "True" ∧
+    (session (fromVariableStep table) general [{ var := "rsds" }] { var := "tas" }).bind (get · "scale_by_annual_cycle_of_upper_bounds") = some "False" := by
+  decide
 
 end Props.C04
